@@ -13,7 +13,7 @@ FILES = {
  "v2/smf/writer.go": ["C01","C03","C10"],
  "v2/smf/chunk.go": ["C01","C03","C10","C09"],
  "v2/smf/smf.go": ["C01","C03","C10","C12","C13"],
- "v2/smf/track.go": ["C01","C12","C13"],
+ "v2/smf/track.go": ["C01","C12","C13","C05"],
  "v2/internal/utils/utils.go": ["C01","C02","C03","C05","C09","C10"],
  "v2/internal/runningstatus/runningstatus.go": ["C01","C02","C03"],
  "v2/helpers.go": ["C01","C02","C05","C04"],
